@@ -52,7 +52,7 @@ def cases(tier, seed):
         add(dict(env="op", n=n), ("gen", "boundary"))
         add(dict(env="pctsp", n=n), ("gen", "boundary"))
         add(dict(env="spctsp", n=n), ("gen",), max(1, reps // 2))
-        add(dict(env="svrp", n=n))
+        add(dict(env="svrp", n=n), ("gen", "boundary"))  # boundary: integer skill levels, requirement == technician's level (allowed)
         add(dict(env="mtsp", n=n + 1, cost_type="minmax", agents=(2, 3)))
         add(dict(env="mtsp", n=n + 1, cost_type="sum", agents=(2, 2)), ("gen",), max(1, reps // 2))
         add(dict(env="cvrptw", n=n, scale=False), ("gen", "boundary"))
